@@ -9,6 +9,7 @@ the configuration.
 from __future__ import annotations
 
 import ast
+import itertools
 
 from sa import astx as X
 from sa import normal as N
@@ -45,19 +46,35 @@ def _format_of_writer(f: FuncInfo) -> tuple[str | None, ast.AST | None]:
     return None, None
 
 
-def _dispatch(f: FuncInfo) -> dict[str, str]:
-    "literal -> loader method name called in that branch of `load`"
-    out = {}
+def _dispatch(f: FuncInfo, literals: list[str] | None = None) -> dict[str, str]:
+    """literal -> loader method name `load` ends in for that literal (under the default threshold, i.e. not the profiling switch):
+    a decision table over `data['__format__'] == <literal>` for every literal compared anywhere in the function"""
+    from sa import dtable as DT
+
+    data = f.params()[-1]
+    lits = list(literals or [])
     for n in ast.walk(f.node):
-        if isinstance(n, ast.If) and isinstance(n.test, ast.Compare) and len(n.test.ops) == 1 and isinstance(n.test.ops[0], ast.Eq):
-            l, r = n.test.left, n.test.comparators[0]
-            lit = r if isinstance(r, ast.Constant) else l if isinstance(l, ast.Constant) else None
-            other = l if lit is r else r
-            if lit is not None and isinstance(lit.value, str) and "__format__" in X.U(other):
-                # last return in the branch body is the default loader
-                rets = [s for s in n.body if isinstance(s, ast.Return)]
-                if rets and isinstance(rets[-1].value, ast.Call):
-                    out[lit.value] = X.U(rets[-1].value.func).split(".")[-1]
+        if isinstance(n, ast.Compare) and len(n.ops) == 1 and isinstance(n.ops[0], (ast.Eq, ast.NotEq)):
+            for c_ in (n.left, n.comparators[0]):
+                if isinstance(c_, ast.Constant) and isinstance(c_.value, str) and c_.value not in lits and c_.value.startswith("MazeDataset"):
+                    lits.append(c_.value)
+    if not lits:
+        return {}
+    atoms = {f"fmt={l}": [f"{data}['__format__'] == {l!r}"] for l in lits}
+    atoms["profiling_switch"] = ["SERIALIZE_MINIMAL_THRESHOLD == -1"]
+    if len(atoms) > 7:
+        return {}
+    out = {}
+    for row in DT.table(f.node, atoms):
+        a = row["assignment"]
+        on = [l for l in lits if a[f"fmt={l}"]]
+        if len(on) != 1 or a["profiling_switch"] or any(v for k, v in a.items() if k.startswith("?")):
+            continue  # exactly one literal matches at a time; the profiling switch is off by default
+        o = row["outcome"]
+        if o[0] == "return" and isinstance(o[1], ast.Call):
+            out[on[0]] = X.U(o[1].func).split(".")[-1]
+        elif o[0] == "raise":
+            out.setdefault(on[0], f"<raises {o[1]}>")
     return out
 
 
@@ -458,6 +475,209 @@ def rule_F9(ctx: Ctx) -> None:
             ctx.judge(w, ok, {"total_solution_len": X.U(d[0]) if d else None}, exp)
 
 
+def _abstract_round_trip(ctx: Ctx, writer: str, reader: str) -> dict:
+    """serialize an abstract dataset with `writer` and load the result with `reader`, both interpreted by the checker over
+    symbolic mazes (opaque connection-list symbols, solutions as arrays of symbolic cells, lengths 2 / 1 / 3 / 2: ragged, with a
+    one-cell and two two-cell solutions); returns the loaded components or what went wrong"""
+    from sa.absnp import MODELS, UNINIT, Arr
+    from sa.fold import EvalRaised, Evaluator, Obj, Unknown
+
+    lens = [2, 1, 3, 2]
+    sols = [Arr([[f"s{k}.{i}r", f"s{k}.{i}c"] for i in range(n)]) for k, n in enumerate(lens)]
+    mazes = [Obj("SolvedMaze", {"connection_list": f"CL{k}", "solution": sols[k], "start_pos": Arr(list(sols[k].data[0])), "end_pos": Arr(list(sols[k].data[-1])),
+                                "generation_meta": None}) for k in range(len(lens))]
+    # the config's own count is stale on purpose (it is compare=False because it drifts): sizes must come from the maze list
+    cfg = Obj("cfg", {"grid_n": 2, "n_mazes": 7, "grid_shape": (2, 2)})
+    ds = Obj("dataset", {"mazes": mazes, "cfg": cfg, "generation_metadata_collected": "GMC"})
+
+    def call_hook(ev, node, env):
+        d = dotted_of(node.func) or ""
+        if d in MODELS:
+            args = [ev.ev(a, env) for a in node.args]
+            kwargs = {k.arg: ev.ev(k.value, env) for k in node.keywords if k.arg and k.arg not in ("dtype",)}
+            try:
+                return MODELS[d](*args, **kwargs)
+            except (ValueError, IndexError) as e:
+                raise EvalRaised(type(e).__name__, str(e))
+            except Exception as e:
+                raise Unknown(f"model of {d}: {e}")
+        if d == "hash" and len(node.args) == 1:
+            v = ev.ev(node.args[0], env)
+            if isinstance(v, Obj) and v.cls == "SolvedMaze":
+                return -mazes.index(v)  # an arbitrary, order-unrelated key: any sort on it reorders the mazes
+            raise Unknown("hash of an untracked value")
+        if d.endswith("_collect_generation_meta_unrecorded") and not node.args:
+            return ev.ev(node.func.value, env)
+        if d in ("json_serialize",) and len(node.args) == 1:
+            return ("json", ev.ev(node.args[0], env))
+        if d == "load_item_recursive" and node.args:
+            v = ev.ev(node.args[0], env)
+            return v[1] if isinstance(v, tuple) and len(v) == 2 and v[0] == "json" else v
+        if d.endswith("Config.load") and len(node.args) == 1:
+            v = ev.ev(node.args[0], env)
+            return v[1] if isinstance(v, tuple) and len(v) == 2 and v[0] == "json" else ("loaded", v)
+        if isinstance(node.func, ast.Attribute) and node.func.attr == "serialize" and not node.args:
+            return ("json", ev.ev(node.func.value, env))
+        if d == "SolvedMaze":
+            args = [ev.ev(a, env) for a in node.args]
+            kw = {k.arg: ev.ev(k.value, env) for k in node.keywords}
+            cl = kw.get("connection_list", args[0] if args else None)
+            so = kw.get("solution", args[1] if len(args) > 1 else None)
+            return ("SolvedMaze", cl, so)
+        if d == "cls" or d.endswith("MazeDataset"):
+            kw = {}
+            for k in node.keywords:
+                if k.arg is None:
+                    kw.update(ev.ev(k.value, env))
+                else:
+                    kw[k.arg] = ev.ev(k.value, env)
+            return ("dataset", kw)
+        return NotImplemented
+
+    w = ctx.index.func(f"{MD}.MazeDataset.{writer}")
+    r = ctx.index.func(f"{MD}.MazeDataset.{reader}")
+    out: dict = {"writer": writer, "reader": reader, "solution_lengths": lens}
+    try:
+        from sa.fold import safe
+
+        @safe
+        def _hash(v):
+            return -mazes.index(v) if v in mazes else 0
+        stored = Evaluator({"__call__": call_hook}).run_body(X.body_wo_doc(w.node), {w.params()[0]: ds, "hash": _hash, "id": _hash})
+        if not isinstance(stored, dict):
+            out["problem"] = f"writer returned {type(stored).__name__}"
+            return out
+        out["stored_keys"] = sorted(stored)
+        rp = r.params()
+        env = {rp[-1]: stored}
+        if len(rp) > 1:
+            env[rp[0]] = "cls"
+        loaded = Evaluator({"__call__": call_hook}).run_body(X.body_wo_doc(r.node), env)
+    except EvalRaised as e:
+        out["problem"] = f"raises {e.exc_name}: {str(e)[:100]}"
+        return out
+    except Unknown as e:
+        out["undecided"] = str(e)[:160]
+        return out
+    if not (isinstance(loaded, tuple) and loaded[0] == "dataset"):
+        out["problem"] = f"reader returned {loaded!r}"[:160]
+        return out
+    kw = loaded[1]
+    problems = []
+    lm = kw.get("mazes")
+    if lm is None:
+        problems.append("no mazes passed to the constructor")
+    else:
+        lm = [x[1] if isinstance(x, tuple) and len(x) == 2 and x[0] == "json" else x for x in (lm if isinstance(lm, list) else [lm])]
+        if len(lm) == 1 and isinstance(lm[0], list):
+            lm = lm[0]
+        want = [("SolvedMaze", f"CL{k}", sols[k]) for k in range(len(lens))]
+        got = []
+        for x in lm:
+            if isinstance(x, Obj) and x.cls == "SolvedMaze":
+                got.append(("SolvedMaze", x.attrs["connection_list"], x.attrs["solution"]))
+            else:
+                got.append(x)
+        if got != want:
+            for k, (g_, w_) in enumerate(itertools.zip_longest(got, want)):
+                if g_ != w_:
+                    problems.append(f"maze {k}: loaded {g_!r}"[:200] + f" expected {w_!r}"[:120])
+                    break
+    c_ = kw.get("cfg")
+    if c_ not in (cfg, ("loaded", cfg), ("json", cfg)):
+        problems.append(f"cfg loaded as {c_!r}"[:120])
+    g_ = kw.get("generation_metadata_collected")
+    if g_ not in ("GMC", ("json", "GMC")):
+        problems.append(f"collected metadata loaded as {g_!r}"[:120])
+    if UNINIT in repr(kw):
+        problems.append("uninitialised padding leaks into the loaded dataset")
+    if problems:
+        out["problem"] = problems[:3]
+    return out
+
+
+def rule_F10(ctx: Ctx) -> None:
+    "abstract round trip of every format: the reader applied to what the writer produced returns the same mazes, in order"
+    load = ctx.index.func(f"{MD}.MazeDataset.load")
+    disp = _dispatch(load)
+    for wname in WRITERS:
+        wf = ctx.index.func(f"{MD}.MazeDataset.{wname}")
+        lit, _ = _format_of_writer(wf)
+        rname = disp.get(lit)
+        exp = ("load(serialize(ds)) has the same mazes in the same order - each with its own connection list and its own solution, cut at its own "
+               "length - the same config and collected metadata (abstract dataset with solution lengths 2, 1, 3, 2)")
+        if rname is None or not ctx.index.has_func(f"{MD}.MazeDataset.{rname}"):
+            ctx.unknown(wf, {"format": lit, "reader": rname}, exp)
+            continue
+        res = _abstract_round_trip(ctx, wname, rname)
+        ok = None if "undecided" in res else ("problem" not in res)
+        ctx.judge(wf, ok, res, exp, "a stored dataset is loaded back with solutions cut at the wrong length, attached to the wrong maze, reordered, or with components dropped")
+    # the collection: every member is stored through its *own* serialize() (which picks the member's format) and reloaded in order
+    from sa.fold import EvalRaised, Evaluator, Obj, Unknown
+
+    cw = ctx.index.func(f"{CD}.MazeDatasetCollection.serialize")
+    cr = ctx.index.func(f"{CD}.MazeDatasetCollection.load")
+    members = [Obj("member", {"k": k}) for k in range(3)]
+    coll = Obj("collection", {"cfg": Obj("ccfg"), "maze_datasets": members, "generation_metadata_collected": "CGMC"})
+
+    def chook(ev, node, env):
+        d = dotted_of(node.func) or ""
+        if isinstance(node.func, ast.Attribute) and not node.args:
+            recv = ev.ev(node.func.value, env)
+            if isinstance(recv, Obj) and recv.cls == "member":
+                return (node.func.attr, recv)  # which serializer of the member was chosen
+            if isinstance(recv, Obj) and node.func.attr == "serialize":
+                return ("json", recv)
+        if d == "json_serialize" and len(node.args) == 1:
+            return ("json", ev.ev(node.args[0], env))
+        if d == "load_item_recursive" and node.args:
+            v = ev.ev(node.args[0], env)
+
+            def un(x):
+                if isinstance(x, tuple) and len(x) == 2 and x[0] == "json":
+                    return x[1]
+                if isinstance(x, tuple) and len(x) == 2 and isinstance(x[1], Obj) and x[1].cls == "member":
+                    return ("loaded via", x[0], x[1])
+                if isinstance(x, list):
+                    return [un(y) for y in x]
+                return x
+            return un(v)
+        if d == "len" and len(node.args) == 1:
+            v = ev.ev(node.args[0], env)
+            if isinstance(v, Obj):
+                return 5
+        if d == "cls":
+            kw = {}
+            for k in node.keywords:
+                if k.arg is None:
+                    kw.update(ev.ev(k.value, env))
+                else:
+                    kw[k.arg] = ev.ev(k.value, env)
+            return ("collection", kw)
+        return NotImplemented
+    res_c: dict = {}
+    okc: bool | None
+    try:
+        def nhook(name, env):
+            return 3 if name == "SERIALIZE_MINIMAL_THRESHOLD" else Obj("module:" + name)
+
+        def ghook(o, attr):
+            if attr == "SERIALIZE_MINIMAL_THRESHOLD":
+                return 3  # a threshold between the members' lengths and the collection's length (5)
+            raise Unknown(f"attribute {attr}")
+        stored = Evaluator({"__call__": chook, "__name__": nhook, "__getattr__": ghook}).run_body(X.body_wo_doc(cw.node), {cw.params()[0]: coll})
+        loaded = Evaluator({"__call__": chook}).run_body(X.body_wo_doc(cr.node), {cr.params()[0]: "cls", cr.params()[1]: stored})
+        want = ("collection", {"cfg": coll.attrs["cfg"], "maze_datasets": [("loaded via", "serialize", m_) for m_ in members], "generation_metadata_collected": "CGMC"})
+        okc = loaded == want
+        res_c = {"loaded": repr(loaded)[:300]} if not okc else {"members": 3}
+    except EvalRaised as e:
+        okc, res_c = False, {"problem": f"raises {e.exc_name}"}
+    except Unknown as e:
+        okc, res_c = None, {"undecided": str(e)[:160]}
+    ctx.judge(cw, okc, res_c, "a collection stores every member through the member's own serialize() (each picks its own format by its own length) and reloads cfg, members (in order) and collected metadata",
+              "members are stored in a format chosen for the whole collection (an empty or short member is forced through the minimal writer and cannot be written), reordered or dropped")
+
+
 def rule_F5(ctx: Ctx) -> None:
     exp = "coordinate storage dtype holds every coordinate of the supported grids (int8: grid_n <= 128); lengths int32"
     for wname in ("_serialize_minimal", "_serialize_minimal_soln_cat"):
@@ -693,15 +913,13 @@ def rule_F8(ctx: Ctx) -> None:
 
 
 RULES = [
+    Rule("C05.F10", rule_F10, floor=4, doc="abstract round trip of every storage format (writer then reader over symbolic mazes)"),
     Rule("C05.F1", rule_F1, floor=9, doc="format closure and zanj routing"),
     Rule("C05.F2", rule_F2, floor=8, doc="writer/reader key agreement, nothing stored is dropped"),
-    Rule("C05.F3", rule_F3, floor=5, doc="slice agreement of padded / concatenated storage"),
-    Rule("C05.F4", rule_F4, floor=4, doc="order preservation"),
     Rule("C05.F5", rule_F5, floor=4, doc="storage capacity"),
     Rule("C05.F6", rule_F6, floor=1, doc="serializer totality over metadata states"),
     Rule("C05.F7", rule_F7, floor=1, doc="threshold selection"),
     Rule("C05.F8", rule_F8, floor=3, doc="serialisation does not drift the configuration's identity"),
-    Rule("C05.F9", rule_F9, floor=7, doc="allocation sizes agree with the enumeration"),
     Rule("C05.E12", lambda ctx: __import__("sa.mypyx", fromlist=["x"]).cross_check(ctx, [f"{MD}.MazeDataset.serialize", f"{CD}.MazeDatasetCollection.serialize", f"{DS}.GPTDataset.save"], "C05.E12"), floor=1,
          doc="thorough: call graph over-approximates mypy's type-resolved edges on the serialization closure", tier="thorough"),
 ]
